@@ -396,6 +396,10 @@ func cmdBattlesReplay(args []string) {
 			if b != nil {
 				w.line(b.reset())
 			}
+		case "run":
+			if b != nil {
+				w.line(b.run())
+			}
 		case "runtwin":
 			if b != nil {
 				st := &battleStats{}
